@@ -96,6 +96,7 @@ def freq_case(draw, tier):
                                G.size_strategy())),
         'seed': draw(st.sampled_from([None, 1, 2])),
         'form': 'list' if form == 'list' else 'dict',
+        'bytes': draw(st.sampled_from([False, False, True])),
         'avoid_known': draw(st.sampled_from([True] * 6 + [False])),
     }
 
@@ -189,6 +190,19 @@ def run(case, ctx):
     case = expand(case)
     given, truth, order = supplied_and_truth(case)
     kw = G.extract_kwargs(case)
+    if case.get('bytes') and case.get('freqs') is None and case.get(
+            'form', 'list') == 'list' and isinstance(given, list):
+        # the same list as byte strings (every other one with a leading
+        # BOM, which utf-8-sig decodes to nothing: different byte strings,
+        # the same example); nulls left out
+        try:
+            given = [((b'\xef\xbb\xbf' if i % 2 else b'')
+                      + s_.encode('utf-8'))
+                     for (i, s_) in enumerate(given) if s_ is not None]
+            kw['encoding'] = 'utf-8-sig'
+            out.label('byte-strings')
+        except UnicodeEncodeError:
+            pass
     ok, x = call(rexpy.extract, given, as_object=True, **kw)
     if not ok:
         out.violate('never-raises', x.bucket(), x.detail())
